@@ -323,6 +323,9 @@ BN_bn2bin(const BIGNUM * a, unsigned char * to)
 
 #ifndef BN_BN2BIN_GENERAL
 	/* the DH code always stores at the end of a 256-byte buffer: only the window form is kept in the formula */
+	/* memory safety of the call itself (a genuine obligation on the caller, not a model limit) */
+	__CPROVER_assert(__CPROVER_POINTER_OFFSET(to) + (size_t)n <= __CPROVER_OBJECT_SIZE(to),
+	    "BN_bn2bin: the BN_num_bytes(a) bytes written at `to` stay inside the destination object");
 	BN_BOUND(n <= 256 && __CPROVER_POINTER_OFFSET(to) + (size_t)n >= 256 &&
 	    __CPROVER_POINTER_OFFSET(to) + (size_t)n <= __CPROVER_OBJECT_SIZE(to), "BN_bn2bin destination ends a 256-byte window");
 	{
